@@ -32,11 +32,11 @@ def shards(tier, seed):
     out = []
     nrand = 10 if tier == "quick" else 20
     for i in range(nrand):
-        out.append({"kind": "random", "mode": ("sync", "noise", "pct")[i % 3], "runs": 500 if tier == "quick" else 6000})
+        out.append({"kind": "random", "mode": ("sync", "noise", "pct")[i % 3], "runs": 500 if tier == "quick" else 20000})
     nsw = 6 if tier == "quick" else 12
     for i in range(nsw):
         out.append({"kind": "sweep", "part": i, "parts": nsw, "ks": [1, 2, 3] if tier == "quick" else [1, 2, 3, 4, 6]})
-    out.append({"kind": "system", "runs": 3 if tier == "quick" else 30})
+    out.append({"kind": "system", "runs": 3 if tier == "quick" else 60})
     return out
 
 
